@@ -16,6 +16,9 @@ import Bermuda.Lemmas.FrameMatrixIndex
 import Bermuda.Lemmas.FrameRich
 import Bermuda.Lemmas.FrameStatics
 import Bermuda.Model.FrameDF
+import Bermuda.Lemmas.FrameRichDisagg
+import Bermuda.Lemmas.FrameParse
+import Bermuda.Lemmas.FrameArrayFull
 namespace Bermuda.Properties.C14
 open Bermuda Bermuda.Frame Bermuda.Spec.C14
 
@@ -298,7 +301,7 @@ theorem wfwide_ragged_example : WFwide exRag ["coverage"] [] where
   ne := by decide
   sorted := by
     unfold exRag
-    simp only [List.pairwise_cons, List.mem_cons, List.not_mem_nil, or_false, forall_eq_or_imp, forall_eq,
+    simp only [List.pairwise_cons, List.mem_cons, List.not_mem_nil, or_false, forall_eq,
       List.Pairwise.nil, and_true, false_implies, implies_true]
     decide +kernel
   cum := by decide +kernel
@@ -682,6 +685,191 @@ theorem wideFrame_incremental_refused {t : List Cell} {tb : Table} (F D L : List
 theorem csv_columns_pass (t : List Cell) : checkIndexColumns (csvDtypes t) = .ok () := by
   unfold csvDtypes
   cases firstIsIncremental t <;> decide
+
+
+/-! ### Rich matrix: disaggregation, `IndexError`, `MissingValue` ids (any triangle the function accepts) -/
+
+/-- **toRich_indexError_iff**: a mark of the anti-diagonal of `(exp_start, exp_end, dev)` leaves an
+`nP × nD` array iff the cell's LAST period index is outside, or the development index of its FIRST
+period, `dev + (exp_end - exp_start)`, is. -/
+theorem toRich_indexError_iff (s e d nP nD : Nat) :
+    ((antiDiag s e d).any fun p => decide (p.1 ≥ nP) || decide (p.2 ≥ nD)) = true ↔
+      s ≤ e ∧ (nP ≤ e ∨ nD ≤ d + (e - s)) :=
+  Frame.antiDiag_outside_iff s e d nP nD
+
+/-- **toRich_item**: one field of one cell, once the index look-ups succeed — `IndexError` exactly under
+the condition above, else the item (slice, field, first / last period index, development index, value) -/
+theorem toRich_item {ix : MatrixIndex} {fields : List String} {nP nD : Nat} {c : Cell} {kv : String × Val}
+    {si fi s d e : Nat} (hf : fields.contains kv.1 = true)
+    (hsi : indexOf? ix.slices c.md = some si) (hfi : indexOf? ix.fields kv.1 = some fi)
+    (hs : ix.expNdx c.ps = .ok s) (hd : ix.devNdx (c.devLag .month) = .ok d) (he : ix.expNdx c.pe = .ok e) :
+    richItem ix fields nP nD c kv =
+      if s ≤ e ∧ (nP ≤ e ∨ nD ≤ d + (e - s)) then .error .indexError
+      else .ok (some { si := si, fi := fi, s := s, e := e, d := d, pv := richValue kv.2 }) :=
+  Frame.richItem_spec hf hsi hfi hs hd he
+
+/-- **toRich_disagg_spec**: the filling loop writes, for every item in program order, its own
+assignments with the id it finds; the id of the `n`-th item is the number of SPANNING items (first and
+last period index differ) before it; a spanning item writes the same `DisaggregatedValue(id, value)` —
+`DisaggregatedPredictedValue(id, array)` for a sample array — on every position of its anti-diagonal, a
+single-step item writes its value once. -/
+theorem toRich_disagg_spec (its : List RichItem) :
+    itemsAssigns its 0 = ((its.zip (disaggIds its 0)).map fun p => itemAssigns p.1 p.2).flatten ∧
+    (∀ n (h : n < (disaggIds its 0).length),
+      (disaggIds its 0)[n] = ((its.take n).filter RichItem.spans).length) ∧
+    (∀ it id, it.spans = true → itemAssigns it id = (antiDiag it.s it.e it.d).map fun p =>
+      ((it.si, it.fi, p.1, p.2), some (if it.pv.1 then RVal.disaggPred id it.pv.2 else RVal.disagg id it.pv.2))) ∧
+    (∀ it id, it.spans = false → itemAssigns it id = [((it.si, it.fi, it.s, it.d), richPlain it.pv)]) :=
+  ⟨itemsAssigns_spec its 0, fun n h => by rw [disaggIds_getElem its 0 n h]; omega,
+   fun _ id h => itemAssigns_spans h id, fun _ id h => itemAssigns_single h id⟩
+
+/-- **toRich_missing_ids**: for ANY triangle `triangle_to_rich_matrix` accepts, the array is the filling
+loop's assignments followed by `MissingValue`s; these sit exactly on the positions inside the array that
+some cell covers and that are still `None` (`hs` below, characterised by `holes_iff`), come in the scan
+order slice, period, development, field, and the `n`-th one holds `MissingValue(n)` in the end. -/
+theorem toRich_missing_ids {ix : MatrixIndex} {fields : List String} {t : List Cell} {M : RichMatrix}
+    (h : toRichWith ix fields t = .ok M) :
+    ∃ (items : List RichItem) (hs : List Pos),
+      M.assigns = itemsAssigns items 0 ++ missingAssigns hs ∧
+      hs = holes ix.slices.length fields.length M.nPeriods M.nDevs (items.flatMap itemCovered) (itemsAssigns items 0) ∧
+      hs.Pairwise scanLt ∧
+      (∀ n (hn : n < hs.length), M.get? hs[n] = some (RVal.missing n)) ∧
+      M.index = ix ∧ M.incremental = firstIsIncremental t :=
+  Frame.toRichWith_shape h
+
+theorem holes_iff {nS nF nP nD : Nat} {cov : List (Nat × Nat × Nat)} {as : List (Pos × Option RVal)} {p : Pos} :
+    p ∈ holes nS nF nP nD cov as ↔
+      p.1 < nS ∧ p.2.1 < nF ∧ p.2.2.1 < nP ∧ p.2.2.2 < nD ∧ (p.1, p.2.2.1, p.2.2.2) ∈ cov ∧
+        lastAssign as p = none :=
+  Frame.mem_holes_iff
+
+/-- what comes back from missing and disaggregated entries: nothing (a cell whose period spans several
+index periods is NOT restored by `rich_matrix_to_triangle`; that `fromRich (toRich t)` is exactly the
+one-index-period cells for disjoint periods is checked by the correspondence only, `richMixedSpec`) -/
+theorem fromRich_ignores_disagg (id : Nat) (v : Val) :
+    RVal.back? (some (.missing id)) = none ∧ RVal.back? (some (.disagg id v)) = none ∧
+    RVal.back? (some (.disaggPred id v)) = none ∧ RVal.back? none = none :=
+  Frame.back?_not_value id v
+
+/-! ### `parse_date` on the documented spellings -/
+
+theorem parseDate_year {y : Nat} (hy : 1 ≤ y ∧ y ≤ 9999) : parseDateChars (year4 y) = .ok ⟨(y : Int), 1, 1⟩ :=
+  Frame.parseDate_year hy
+
+theorem parseDate_quarter {y q : Nat} (hy : 1 ≤ y ∧ y ≤ 9999) (hq : 1 ≤ q ∧ q ≤ 4) :
+    parseDateChars (year4 y ++ ['Q', digitChar q]) = .ok ⟨(y : Int), (q - 1) * 3 + 1, 1⟩ :=
+  Frame.parseDate_quarter hy hq
+
+theorem parseDate_half {y n : Nat} (hy : 1 ≤ y ∧ y ≤ 9999) (hn : 1 ≤ n ∧ n ≤ 2) :
+    parseDateChars (year4 y ++ ['H', digitChar n]) = .ok ⟨(y : Int), if n = 1 then 1 else 7, 1⟩ :=
+  Frame.parseDate_half hy hn
+
+theorem parseDate_month {y m : Nat} (hy : 1 ≤ y ∧ y ≤ 9999) (hm : 1 ≤ m ∧ m ≤ 12) :
+    parseDateChars (year4 y ++ ['-', digitChar (m / 10), digitChar (m % 10)]) = .ok ⟨(y : Int), m, 1⟩ :=
+  Frame.parseDate_month hy hm
+
+theorem parseDate_iso {y m d : Nat} (hy : 1 ≤ y ∧ y ≤ 9999) (hv : (⟨(y : Int), m, d⟩ : Date).valid = true) :
+    parseDateChars (year4 y ++ ['-', digitChar (m / 10), digitChar (m % 10), '-', digitChar (d / 10), digitChar (d % 10)]) =
+      .ok ⟨(y : Int), m, d⟩ :=
+  Frame.parseDate_iso hy hv
+
+/-- refusals (`ValueError`): a quarter other than 1 … 4, a half other than 1, 2, a date that does not
+exist, a text of another length, a year that is not four digits -/
+theorem parseDate_refusals :
+    (∀ y q : Nat, y < 10000 → q < 10 → (q = 0 ∨ 5 ≤ q) → parseDateChars (year4 y ++ ['Q', digitChar q]) = .error .valueError) ∧
+    (∀ y n : Nat, y < 10000 → n < 10 → (n = 0 ∨ 3 ≤ n) → parseDateChars (year4 y ++ ['H', digitChar n]) = .error .valueError) ∧
+    (∀ y m d : Nat, y < 10000 → m < 100 → d < 100 → (⟨(y : Int), m, d⟩ : Date).valid = false →
+      parseDateChars (year4 y ++ ['-', digitChar (m / 10), digitChar (m % 10), '-', digitChar (d / 10), digitChar (d % 10)]) =
+        .error .valueError) ∧
+    (∀ cs : List Char, cs.length ≠ 4 ∧ cs.length ≠ 6 ∧ cs.length ≠ 7 ∧ cs.length ≠ 10 →
+      parseDateChars cs = .error .valueError) ∧
+    (∀ a b c d : Char, ([a, b, c, d].all Char.isDigit) = false → parseDateChars [a, b, c, d] = .error .valueError) :=
+  ⟨fun _ _ hy hq hb => Frame.parseDate_quarter_refused hy hq hb,
+   fun _ _ hy hn hb => Frame.parseDate_half_refused hy hn hb,
+   fun _ _ _ hy hm hd hv => Frame.parseDate_iso_refused hy hm hd hv,
+   fun _ h => Frame.parseDate_length_refused h, fun _ _ _ _ h => Frame.parseDate_year_nondigit h⟩
+
+theorem parseDate_examples :
+    parseDateChars ['2', '0', '2', '0', 'Q', '3'] = .ok ⟨2020, 7, 1⟩ ∧
+    parseDateChars ['2', '0', '2', '1', 'H', '2'] = .ok ⟨2021, 7, 1⟩ ∧
+    parseDateChars ['1', '9', '9', '9'] = .ok ⟨1999, 1, 1⟩ ∧
+    parseDateChars ['2', '0', '2', '0', '-', '0', '2', '-', '2', '9'] = .ok ⟨2020, 2, 29⟩ ∧
+    parseDateChars ['2', '0', '2', '1', '-', '0', '2', '-', '3', '0'] = .error .valueError ∧
+    parseDateChars ['2', '0', '2', '0', 'H', '3'] = .error .valueError ∧
+    parseDateChars ['a', 'b', 'c'] = .error .valueError :=
+  Frame.parseDate_examples
+
+/-! ### `array_data_frame_to_triangle` with all its arguments, `array_triangle_builder` -/
+
+/-- **fromArrayFrame_args** (`RegFrame`: first-of-month periods from 1970 on, strictly ascending, `res ≥ 1`,
+strictly ascending column lags, the constructor's date rules hold). With `period_resolution=res`, any
+`eval_resolution`, `dev_lag_from_period_end` and `metadata`, the reader builds exactly
+`Spec.arrayExpected`: one `CumulativeCell` per entry of the frame (`NaN` → none), period of `res` months,
+evaluated `lag` months after the period end — or `lag` months after the period start minus a day when
+`dev_lag_from_period_end=False` AND the lags are read from integer labels —, value as the frame holds it,
+the given metadata; the column lags are the integer labels, or `i · eval_resolution` with the given
+resolution, or `i · res` when a label is not an integer. -/
+theorem fromArrayFrame_args {cols : List String} {rows : List (Date × List Val)} {field : String}
+    {md : Metadata} {res : Int} {evalRes : Option Int} {fe : Bool}
+    (h : RegFrame field md res (fe || (effectiveEvalResolution cols res evalRes).isSome)
+          (columnLags cols (effectiveEvalResolution cols res evalRes)) rows) :
+    fromArrayFrameFull { cols := cols, rows := rows.map fun r => (PeriodEntry.date r.1, r.2) } field (some res)
+        evalRes fe md =
+      .ok (arrayExpected field md res (fe || (effectiveEvalResolution cols res evalRes).isSome)
+            (columnLags cols (effectiveEvalResolution cols res evalRes)) rows) :=
+  Frame.fromArrayFrameFull_spec h
+
+/-- … and with `period_resolution` inferred by the reader (`round` of the fractional month lag of the
+first two period starts, fix D19) when these are `res` months apart -/
+theorem fromArrayFrame_args_inferred {cols : List String} {rows : List (Date × List Val)} {field : String}
+    {md : Metadata} {res : Int} {evalRes : Option Int} {fe : Bool}
+    (h : RegFrame field md res (fe || (effectiveEvalResolution cols res evalRes).isSome)
+          (columnLags cols (effectiveEvalResolution cols res evalRes)) rows)
+    (hp : ∃ r0 r1 rest, rows = r0 :: r1 :: rest ∧ monthToId r1.1 = monthToId r0.1 + res) :
+    fromArrayFrameFull { cols := cols, rows := rows.map fun r => (PeriodEntry.date r.1, r.2) } field none
+        evalRes fe md =
+      .ok (arrayExpected field md res (fe || (effectiveEvalResolution cols res evalRes).isSome)
+            (columnLags cols (effectiveEvalResolution cols res evalRes)) rows) :=
+  Frame.fromArrayFrameFull_spec_inferred h hp
+
+/-- the Spec clauses the driver evaluates on the implementation's output hold on the model's output -/
+theorem arrayFullSpec_on_model {field : String} {md : Metadata} {res : Int} {fromEnd : Bool} {lags : List Int}
+    {rows : List (Date × List Val)} (h : RegFrame field md res fromEnd lags rows) :
+    arrayFullSpec field md res fromEnd lags rows (arrayExpected field md res fromEnd lags rows) = true :=
+  Frame.arrayFullSpec_on_model h
+
+theorem staticsSpec_on_model {rows : List (Date × Dict Val)} {res : Int} {ev : Date} {md : Metadata}
+    (h : StaticsFrame rows res ev md) :
+    staticsSpec rows res ev md (rows.map (staticsExpected md res ev)) = true :=
+  Frame.staticsSpec_on_model h
+
+/-- `RegFrame` is satisfiable: quarterly periods from 2021-04, lags 0 and 3 (eval_resolution 3), a gap -/
+theorem regFrame_example :
+    RegFrame "paid_loss" {} 3 true [0, 3]
+      [(⟨2021, 4, 1⟩, [.flt 1, .int 2]), (⟨2021, 7, 1⟩, [.flt (5/2), .none])] where
+  res1 := by decide
+  first := by decide
+  asc := by
+    simp only [List.pairwise_cons, List.mem_cons, List.not_mem_nil, or_false, forall_eq, List.Pairwise.nil,
+      and_true, false_implies, implies_true]
+    decide
+  lagsAsc := by decide
+  fromStart := by intro h; cases h
+  dates := by decide +kernel
+
+/-- **arrayBuilder_spec**: `array_triangle_builder(dfs, fields, **kwargs)` refuses lists of different
+lengths (`ValueError`), is the single reader for one frame, and for two frames is `merge` (full join, the
+right operand's values win — `Properties/C10.lean: merge_cells, merge_values, merge_unmatched_id`) of the
+two single-field triangles of `fromArrayFrame_args`; further frames fold on the left the same way. -/
+theorem arrayBuilder_spec (f1 f2 : ArrayFrame) (n1 n2 : String) (pr er : Option Int) (fe : Bool) (md : Metadata) :
+    arrayTriangleBuilder [f1] [n1] pr er fe md = fromArrayFrameFull f1 n1 pr er fe md ∧
+    arrayTriangleBuilder [f1, f2] [n1, n2] pr er fe md =
+      ((fromArrayFrameFull f1 n1 pr er fe md).bind fun t1 =>
+       (fromArrayFrameFull f2 n2 pr er fe md).bind fun t2 => merge (some .full) none t1 t2) ∧
+    (∀ (fs : List ArrayFrame) (ns : List String), fs.length ≠ ns.length →
+      arrayTriangleBuilder fs ns pr er fe md = .error .valueError) :=
+  ⟨arrayTriangleBuilder_one f1 n1 pr er fe md, arrayTriangleBuilder_two f1 f2 n1 n2 pr er fe md,
+   fun fs ns h => arrayTriangleBuilder_mismatch fs ns pr er fe md h⟩
 
 
 end Bermuda.Properties.C14
